@@ -762,6 +762,13 @@ func (e *Env) builtin(name string, x *ast.CallExpr) (Val, bool) {
 	case "sameBacking":
 		a, b := e.eval(arg(0)), e.eval(arg(1))
 		return boolVal(eq(a.L[0], b.L[0])), true
+	case "contains":
+		// contains(s, t) on strings: only in lemmas decided over native strings
+		if !e.c.sc.native {
+			e.fail("contains() is available only in `nativestrings` lemmas")
+		}
+		a, b := e.eval(arg(0)), e.eval(arg(1))
+		return boolVal(app("str.contains", a.L[0], b.L[0])), true
 	case "offset":
 		// position of a slice's first element in its backing array
 		a := e.eval(arg(0))
